@@ -2,7 +2,7 @@
    Only statements, `exact`, Print Assumptions and non-vacuity examples. *)
 From Coq Require Import List Bool Arith Reals Lra Lia Sorted.
 Import ListNotations.
-From PS Require Import Num RLemmas Valid ModelKernels ModelFuncs ModelAPI Spec Lem_Pwc Lem_Pwl.
+From PS Require Import Num RLemmas Valid ModelKernels ModelFuncs ModelAPI Spec Lem_Pwc Lem_Pwl Lem_Misc.
 Require Import PS.Props.PropTac.
 Local Open Scope R_scope.
 
@@ -83,6 +83,15 @@ Theorem C10_pwl_plottable : forall f, wf_pwl f ->
   /\ length (snd (pwl_plottable f)) = (2 * length (snd (fst f)))%nat.
 Proof. exact pwl_plottable_spec. Qed.
 Print Assumptions C10_pwl_plottable.
+
+Theorem C10_pwc_plottable : forall f : list R * list R, wf_pwc f ->
+  pwc_plottable f = (match fst f with [] => [] | x0 :: r => x0 :: removelast (dup r) end, dup (snd f)) /\
+  length (fst (pwc_plottable f)) = (2 * length (snd f))%nat /\
+  length (snd (pwc_plottable f)) = (2 * length (snd f))%nat /\
+  (forall k, (k < length (snd f))%nat ->
+     nth (2 * k) (snd (pwc_plottable f)) 0 = nth k (snd f) 0 /\ nth (2 * k + 1) (snd (pwc_plottable f)) 0 = nth k (snd f) 0).
+Proof. exact pwc_plottable_spec. Qed.
+Print Assumptions C10_pwc_plottable.
 
 Example C10_nonvacuous : wf_pwc ([0; 1/4; 1], [1; -2]) /\ wf_pwl ([0; 1/4; 1], [1; 2], [0; 3]).
 Proof. unfold wf_pwc, wf_pwl, wf_x; cbn [fst snd length]; repeat split; try lia; valid_tac. Qed.
